@@ -258,7 +258,9 @@ static const char* const kTriggers[] = {
   "<lid://local/app>[type:program][expires:19990101][script:x=1]", "<http://a.b/%41%42c>[n:%5B%5D%25][tve:1.0]",
   "<http://x>[priority:9][delete][autoload][counter:12][active:300]", "<http://y>[name:%", "<http://y>[%4", "<>[]", "<http://z>[e:99999999T999999]",
   "<http://q>[n:A very long name that goes on and on and on and on and on and on and on and on and on and on and on and on and on and on and on and on and on and on end]",
-  "<http://w>[1234][abcd][FFFF]", "[n:no url]", "<http://v>[v:w][t:q][program][network][station][sponsor][operator]", "<ttx://123.45>[n:ttx]", "<tw://1.2.3>[t:o]"};
+  "<http://w>[1234][abcd][FFFF]", "[n:no url]", "<http://later.example/a>[countdown:2][name:later]", "<http://later.example/b>[countdown:1F10][active:3]",
+  "<http://later.example/a>[countdown:2][delete]", "<http://later.example/c>[c:3F05][n:x][p:5][s:run()]", "<http://t.example>[time:20010909T014650][n:timed]", "<http://t.example>[time:20010909T014655][expires:20010909T0150]",
+  "<http://later.example/d>[countdown:0F20]<http://later.example/e>[countdown:1]<http://later.example/f>[countdown:3]", "<http://v>[v:w][t:q][program][network][station][sponsor][operator]", "<ttx://123.45>[n:ttx]", "<tw://1.2.3>[t:o]"};
 
 static void trigger_string(Rng& r, std::string& s) {
   s = kTriggers[r.below(sizeof kTriggers / sizeof kTriggers[0])];
@@ -320,7 +322,11 @@ static void build_page(int kind, int mag, int page, int sub, unsigned ctrl, uint
         int len = 1 + (int)r.below(20);
         for (int i = 1; i <= len && ptr + i < 507; i++) T[ptr + i] = rand_triplet(r, false);
         // nested invocation of a higher type object, and of an equal / lower one (must be refused)
-        if (r.chance(1, 2) && ptr + 2 < 507) T[ptr + 1 + (int)r.below((uint64_t)len)] = obj_invocation((int)r.below(12), kind == K_GPOP || r.chance(1, 3), sub);
+        if (r.chance(1, 2) && ptr + 2 < 507) {
+          // any object, or itself / another one of its own type (EN 300 706 13.2: must be refused, else the invocation recurses for ever)
+          int target = r.chance(1, 2) ? (int)r.below(12) : r.chance(1, 2) ? k : (k + 3 * (1 + (int)r.below(3))) % 12;
+          T[ptr + 1 + (int)r.below((uint64_t)len)] = obj_invocation(target, kind == K_GPOP || r.chance(1, 3), sub);
+        }
         if (ptr + len + 1 < 507) T[ptr + len + 1] = trip(63, 0x1F, 0);
       }
       if (r.chance(1, 4)) for (int i = 0; i < 13; i++) P[(int)r.below(4)][i] = (uint32_t)r.below(1 << 18);  // wild pointers
@@ -699,7 +705,10 @@ static const uint16_t kPat[][24] = {
   {'N', 'E', 'W', 'S', 0}, {'1', '0', '0', 0}, {'Q', 'Q', 'Q', 0}, {'[', '0', '-', '9', ']', '+', 0}, {'a', '.', '*', 'b', 0}, {'(', 'n', 'e', '|', 'S', 'p', ')', '.', 0},
   {'^', 'Z', 'S', 'I', 'M', 0}, {'\\', 'd', '{', '2', ',', '3', '}', 0}, {'[', '^', 'a', '-', 'z', ']', '*', '$', 0}, {'w', 'w', 'w', '\\', '.', 0}, {'(', '(', 'a', ')', '*', ')', '*', 'b', 0},
   {'[', 0}, {'(', 0}, {'*', 0}, {'\\', 0}, {0}, {0xE9, 0x20AC, 0}, {'x', '{', '9', '9', '9', '}', 0}, {'.', '?', '+', '*', 0}, {'[', ':', 'a', 'l', 'p', 'h', 'a', ':', ']', '+', 0},
-  {'\\', 'w', '+', '@', '\\', 'w', '+', 0}, {'a', '|', 'b', '|', 'c', '|', 0}, {'[', 'z', '-', 'a', ']', 0}, {'\\', 'x', '{', '4', '1', '}', 0}, {' ', ' ', ' ', 0}};
+  {'\\', 'w', '+', '@', '\\', 'w', '+', 0}, {'a', '|', 'b', '|', 'c', '|', 0}, {'[', 'z', '-', 'a', ']', 0}, {'\\', 'x', '{', '4', '1', '}', 0}, {' ', ' ', ' ', 0},
+  {'\\', 'p', '{', 'L', 'u', '}', '+', 0}, {'\\', 'S', '+', '\\', 's', '\\', 'D', 0}, {'[', '[', ':', 'd', 'i', 'g', 'i', 't', ':', ']', ']', '{', '3', '}', 0}, {'^', '$', 0}, {'(', 'a', '|', ')', '+', 0},
+  {'\\', 'U', '\\', 'L', '\\', 'u', '\\', 'l', 0}, {'[', '\\', ']', ']', 0}, {'a', '{', '2', ',', '}', 0}, {'a', '{', ',', '3', '}', 0}, {'\\', 'N', '{', '1', ',', '2', '}', 0}, {'[', 'a', '-', 0},
+  {'W', 'e', 't', 't', 'e', 'r', ' ', '1', '5', '0', 0}, {'s', 'P', 'O', 'R', 'T', 0}, {'.', '{', '4', '0', '}', 0}, {0x41, 0x300, 0}, {0xFFFF, 0}, {'\\', 'b', 'p', '\\', 'B', 0}};
 static const int kNPat = (int)(sizeof kPat / sizeof kPat[0]);
 
 struct C01 : World {
@@ -771,6 +780,20 @@ struct C01 : World {
       else d.kind = r.chance(1, 2) ? K_NIBBLE : K_HEADER;
       if (d.kind == K_LOP_OBJ && r.chance(1, 2)) d.flags |= PF_X27_4;
       car.push_back(d);
+    }
+    // most Level 2.5 stations transmit the complete set an object invocation needs: MOT, (G)POP, (G)DRCS and pages using them
+    if (src_ttx && level25 && r.chance(3, 4)) {
+      auto core = [&](int kind, int pgno, int flags) {
+        PageDef d; d.kind = kind; d.mag = pgno >> 8; d.page = pgno & 255; d.sub = 0; d.seed = (int64_t)r.below(1u << 30); d.flags = flags;
+        d.ctrl = (serial ? ttx::C11_SERIAL : 0) | ttx::ctrl_national((int)r.below(8)) | (r.chance(1, 2) ? ttx::C4_ERASE : 0);
+        car.push_back(d);
+      };
+      core(K_MOT, m1 * 256 + 0xFE, 0);
+      core(K_GPOP, L.gpop, 0); core(K_POP, L.pop[0], 0);
+      core(K_GDRCS, L.gdrcs, 0); core(K_DRCS, L.drcs[0], 0);
+      int n = 2 + (int)r.below(3);
+      for (int i = 0; i < n; i++) core(r.chance(3, 4) ? K_LOP_OBJ : K_LOP, m1 * 256 + (int)(r.below(10) << 4 | r.below(10)), (r.chance(1, 3) ? PF_X27_4 : 0) | (r.chance(1, 4) ? PF_X28_0 : 0) | PF_DENSE);
+      if (r.chance(1, 2)) core(K_MIP, m1 * 256 + 0xFD, 0);
     }
     auto add_faults = [&](Op& o) {
       while (o.a.size() < 16) o.a.push_back(0);
@@ -951,8 +974,15 @@ struct C01 : World {
       vbi_export_info* xi; { SutScope ss; xi = vbi_export_info_enum(mi); }
       if (!xi) return;
       char* err = nullptr; vbi_export* e;
-      { SutScope ss; e = vbi_export_new(xi->keyword, &err); }
-      if (!e) { free(err); c.log("export %s new failed", xi->keyword); return; }
+      std::string kw = xi->keyword;
+      if (r.chance(1, 3)) {  // option string syntax "keyword,option=value,..."
+        static const char* const opts[] = {",charset=UTF-8", ",format=3", ",compression=9", ",gfx_chr=64", ",control=2", ",color=1", ",header=0", ",aspect=0", ",titled=1", ", creator = zsim ", ",transparency=1",
+                                           ",network='a b'", ",reveal", ",bogus=1", ",=", ",charset=", ",fg=9,bg=-1", ",term=2", ",quality=", ",,", ",charset=\"UTF-8\"", ",reveal=1,titled=0,aspect=1"};
+        int n = 1 + (int)r.below(3);
+        for (int i = 0; i < n; i++) kw += opts[r.below(sizeof opts / sizeof opts[0])];
+      }
+      { SutScope ss; e = vbi_export_new(kw.c_str(), &err); }
+      if (!e) { { SutScope ss; free(err); } c.log("export %s new failed", kw.c_str()); return; }
       int nset = 0;
       for (int oi = 0;; oi++) {
         vbi_option_info* oinf; { SutScope ss; oinf = vbi_export_option_info_enum(e, oi); }
@@ -1085,7 +1115,7 @@ struct C01 : World {
       for (int i = 0; i < n; i++) {
         vbi_page* pg = nullptr; int st;
         uint64_t e0 = edges_executed();
-        budget_begin("vbi_search_next", 3000000000ull);
+        budget_begin("vbi_search_next", 300000000ull);
         { SutScope ss; st = vbi_search_next(s.search, &pg, dir); }
         budget_end();
         s.max_search_edges = std::max(s.max_search_edges, edges_executed() - e0);
@@ -1158,9 +1188,14 @@ struct C01 : World {
       case VBI_EVENT_TRIGGER: { vbi_link* l = ev->ev.trigger;
         // an application can only use these as C strings: an unterminated array makes every use an out-of-bounds read
         if (strnlen((const char*)l->url, sizeof l->url) >= sizeof l->url || strnlen((const char*)l->name, sizeof l->name) >= sizeof l->name || strnlen((const char*)l->script, sizeof l->script) >= sizeof l->script)
-          c.fail("oracle:trigger-unterminated", "VBI_EVENT_TRIGGER delivered a vbi_link whose url/name/script array holds no terminating NUL"); c.log("ev%d trigger type %d url %zu name %zu script %zu", which, (int)l->type, strnlen((const char*)l->url, 256), strnlen((const char*)l->name, 80), strnlen((const char*)l->script, 256)); c.count("trigger_events"); break; }
+          c.fail("oracle:trigger-unterminated", "VBI_EVENT_TRIGGER delivered a vbi_link whose url/name/script array holds no terminating NUL");
+        int ltype; memcpy(&ltype, &l->type, sizeof ltype);  // may be garbage: do not load it as an enum
+        c.log("ev%d trigger type %d url %zu name %zu script %zu", which, ltype, strnlen((const char*)l->url, 256), strnlen((const char*)l->name, 80), strnlen((const char*)l->script, 256)); c.count("trigger_events"); break; }
       case VBI_EVENT_ASPECT: c.log("ev%d aspect %d-%d", which, ev->ev.aspect.first_line, ev->ev.aspect.last_line); break;
-      case VBI_EVENT_PROG_INFO: { vbi_program_info* pi = ev->ev.prog_info; c.log("ev%d prog_info title %zu rating %d", which, strnlen((const char*)pi->title, 64), (int)pi->rating_id); c.count("prog_info_events"); break; }
+      case VBI_EVENT_PROG_INFO: { vbi_program_info* pi = ev->ev.prog_info; c.log("ev%d prog_info title %zu rating %d", which, strnlen((const char*)pi->title, 64), (int)pi->rating_id); c.count("prog_info_events");
+        { SutScope ss; const char* a = vbi_rating_string(pi->rating_auth, pi->rating_id); const char* b = vbi_prog_type_string(pi->type_classf, pi->type_id[0]);
+          volatile size_t n = (a ? strlen(a) : 0) + (b ? strlen(b) : 0); (void)n; }
+        break; }
       case VBI_EVENT_LOCAL_TIME: c.log("ev%d local_time", which); break;
       case VBI_EVENT_PROG_ID: c.log("ev%d prog_id ch %d", which, (int)ev->ev.prog_id->channel); break;
       default: c.log("ev%d type %x", which, ev->type); break;
